@@ -65,19 +65,47 @@ def run(repo, rep):
                 # a new iteration: elements of the iterated container are new sub-values
                 # (also anything computed from the loop variables: they are rebound)
                 bound = {n_.id for n_ in ast.walk(st) if isinstance(n_, ast.Name) and isinstance(n_.ctx, ast.Store)}
-                cur = {x for x in cur if not x[1].startswith('elem(') and
+                cur = {x for x in cur if x[0] in ('#none', '#some') or not x[1].startswith('elem(') and
                        not ({n_.id for n_ in ast.walk(ast.parse(x[0], mode='eval')) if isinstance(n_, ast.Name)} & bound)}
                 return [frozenset(cur)]
+            # None-ness of local names bound by plain assignments (els = None ... if els is None:): markers ('#none', name, 0) /
+            # ('#some', name, 0) ride along in the state and let the branch hook drop the infeasible side
+            if isinstance(st, ast.Assign) and len(st.targets) == 1 and isinstance(st.targets[0], ast.Name):
+                nm_ = st.targets[0].id
+                cur = {x for x in cur if not (x[0] in ('#none', '#some') and x[1] == nm_)}
+                v_ = st.value
+                if isinstance(v_, ast.Constant) and v_.value is None:
+                    cur.add(('#none', nm_, 0))
+                elif isinstance(v_, (ast.List, ast.Tuple, ast.Dict, ast.Set, ast.ListComp, ast.GeneratorExp, ast.SetComp, ast.DictComp, ast.JoinedStr)) or \
+                        (isinstance(v_, ast.Constant) and v_.value is not None):
+                    cur.add(('#some', nm_, 0))
             calls = [c for c in _walk_no_nested(st) if id(c) in _site_of]
             calls.sort(key=lambda c: (c.lineno, c.col_offset))
             for c in calls:
                 raw, cv = _site_of[id(c)]
                 for (r0, c0, ln0) in cur:
+                    if r0 in ('#none', '#some'):
+                        continue
                     if (r0 == raw or c0 == cv) and not isinstance(ast.parse(raw, mode='eval').body, ast.Constant):
                         _clashes.setdefault(raw if r0 == raw else cv, set()).update({ln0, c.lineno})
                 cur.add((raw, cv, c.lineno))
             return [frozenset(cur)]
-        fl = Flow(transfer, lambda st, s_: [])
+        def branch(test, state):
+            # (states where the test can be true, states where it can be false)
+            neg = False
+            t_ = test
+            if isinstance(t_, ast.UnaryOp) and isinstance(t_.op, ast.Not):
+                neg, t_ = True, t_.operand
+            if isinstance(t_, ast.Compare) and len(t_.ops) == 1 and isinstance(t_.ops[0], (ast.Is, ast.IsNot)) and isinstance(t_.left, ast.Name) \
+                    and isinstance(t_.comparators[0], ast.Constant) and t_.comparators[0].value is None:
+                is_none_test = isinstance(t_.ops[0], ast.Is) != neg
+                nm_ = t_.left.id
+                if ('#none', nm_, 0) in state:
+                    return ([state], []) if is_none_test else ([], [state])
+                if ('#some', nm_, 0) in state:
+                    return ([], [state]) if is_none_test else ([state], [])
+            return [state], [state]
+        fl = Flow(transfer, lambda st, s_: [], branch=branch)
         try:
             fl.run(f.node, frozenset())
         except RecursionError:
